@@ -4,6 +4,13 @@ import json, sys, os
 V = '/verif'
 CLAIMED = {
 
+ 'C09': ("stateless DFS over thread schedules of real Conn + Server with streams (deviation-bounded), all server modes incl. poll emulation",
+         "1-2 streams on one connection, the handler pushing 0/1/2 messages immediately after open and then echoing, the client writing 1-2 messages before or after reading the pushes, a unary call and a ping alongside, in ServeCodec, listener, poll(1 worker) and poll(2 workers) modes: in every explored interleaving each side reads exactly the sequence the other side wrote (no loss, duplicate, reorder, foreign or phantom message), nobody stays blocked and the unary reply is its own.",
+         "message sizes up to ~20 bytes; bounds d<=2 quick / d<=3 thorough; netpoll replaced by the poll emulation", "5 C09"),
+ 'C10': ("stateless DFS over thread schedules (deviation-bounded) x complete enumeration of end events, timings and server modes",
+         "A stream with a handler blocked in ReadMessage and a client reader blocked in ReadMessage, a sibling stream and a gated unary call; events {stream.Close, conn.Close, peer EOF, reset, Server.Close} at a quiescent moment, after an echo round trip, or racing with an in-flight stream message; ServeCodec, listener, poll(1), poll(2): blocked and later ReadMessage/WriteMessage on both ends return ErrStreamShutdown, every affected handler returns, the sibling stream and the unary call are untouched when only one stream is closed.",
+         "handler release is judged after in-flight unary handlers were allowed to finish (ServeCodec waits for them before stopping streams); blocked WriteMessage in a full transport is not modelled; bounds d<=2 quick / d<=3 thorough", "5 C10"),
+
  'C01': ("stateless DFS over thread schedules of real Conn + Server.ServeCodec (deviation-bounded), discriminating payloads",
          "2-3 concurrent callers (all call forms, sizes below/at/above every buffer, a reply twice the request) against gated handlers released in every order, all four header encoders, server pipelining/direct I/O, client direct I/O/pipelining, two connections on one server with colliding sequence numbers, follow-up traffic; every interleaving with at most d deviations runs the real code and every successful reply must equal F(own arguments) byte for byte, also after the follow-up calls.",
          "message-level transport model (fragmentation is covered by the byte-pipe scenarios when present in the evidence); bounds d<=2 quick / d<=3 thorough", "5 C01"),
